@@ -1,6 +1,7 @@
 package sequence
 
 import "sync/atomic"
+import "github.com/glebziz/fs_db/internal/verifhook"
 
 type Seq uint64
 
@@ -11,6 +12,7 @@ func Set(s Seq) {
 }
 
 func Next() Seq {
+	verifhook.At("seq.next")
 	return Seq(atomic.AddUint64(&seq, 1))
 }
 
